@@ -35,7 +35,7 @@ pub fn num(s: &str) -> u64 {
 /// Runs `f` on every stdin line (split on blanks), printing one result line per
 /// case; a panic inside `f` is reported as the result `PANIC`.
 pub fn serve<F: Fn(&[&str]) -> String + std::panic::RefUnwindSafe>(f: F) {
-    std::panic::set_hook(Box::new(|_| {}));
+    std::panic::set_hook(Box::new(|info| { if std::env::var("VERIF_PANIC_MSG").is_ok() { eprintln!("PANIC-MSG: {info}"); } }));
     let stdin = io::stdin();
     let stdout = io::stdout();
     let mut out = io::BufWriter::new(stdout.lock());
